@@ -6,10 +6,12 @@ import ChythonModel.Proofs.C15Cx
 import ChythonModel.Proofs.C15Rxn
 import ChythonModel.Proofs.C15Dict
 import ChythonModel.Proofs.C15Radicals
+import ChythonModel.Proofs.C15Mapping
 import ChythonModel.Model.C15CgrTokens
 import ChythonModel.Model.C15Hash
 import ChythonModel.Model.C15Read
 import ChythonModel.Model.C15Radicals
+import ChythonModel.Model.C15Mapping
 /-!
 # C15 — reactions: role-preserving I/O, order-free identity, exact condensed graph
 
@@ -526,5 +528,62 @@ example :
         · subst hf; revert c; decide)
     (by intro m hm; simp at hm; rcases hm with rfl | rfl <;> decide)
   exact h
+
+/-! ## part 10 — atom-to-atom mapping repair on reading (`postprocess_parsed_reaction`, files/_mapping.py)
+
+`postprocessRxn remap ignore R P A` (Model/C15Mapping.lean, driver op `mapfix`): per role (reactants, products, reagents)
+and molecule the `parsed_mapping` of the atoms (0 = unmapped) ↦ the final atom numbers. -/
+
+/-- **mapping_untouched.** A complete consistent mapping (`CleanMaps`: every atom mapped, numbers pairwise different
+    inside each role, reagents share no number with reactants / products) comes back unchanged — with the default options
+    and with `ignore=False` (no `MappingError`). -/
+theorem mapping_untouched (ignore : Bool) (R P A : List (List Nat)) (h : CleanMaps R P A) :
+    postprocessRxn false ignore R P A = .ok ⟨R, P, A⟩ :=
+  postprocess_clean ignore R P A h
+
+/-- the same with `remap=True` when the numbers have no gaps (`1 … max` all in use) -/
+theorem mapping_untouched_remap (ignore : Bool) (R P A : List (List Nat)) (h : CleanMaps R P A)
+    (hg : ∀ j, 1 ≤ j → j ≤ max (max (maxList P.flatten) (maxList R.flatten)) (maxList A.flatten) →
+      j ∈ R.flatten ++ P.flatten ++ A.flatten) :
+    postprocessRxn true ignore R P A = .ok ⟨R, P, A⟩ :=
+  postprocess_clean_remap ignore R P A h hg
+
+/-- the hypotheses are satisfiable: `[CH3:1][OH:2].[Na+:5]>[K+:7]>[CH3:1][O-:2]` (gap at 3, 4, 6) -/
+example : CleanMaps [[1, 2], [5]] [[1, 2]] [[7]] := by
+  refine ⟨by decide, by decide, by decide, by decide, by decide⟩
+
+/-- **mapping_repair_total.** With `ignore=True` the repair never raises. -/
+theorem mapping_repair_total (R P A : List (List Nat)) : ∃ o, postprocessRxn false true R P A = .ok o :=
+  postprocess_total R P A
+
+/-- **mapping_repaired_injective.** Whatever was parsed (unmapped atoms, numbers repeated inside a molecule or a role,
+    reagents re-using reactant / product numbers): afterwards every molecule has as many numbers as atoms, the numbers
+    of every role are pairwise different (injective per role), reagents share no number with reactants or products,
+    and all numbers are positive. -/
+theorem mapping_repaired_injective (R P A : List (List Nat)) (o : MapOut)
+    (h : postprocessRxn false true R P A = .ok o) : GoodMaps R P A o :=
+  postprocess_spec R P A o h
+
+/-- **mapping_remap_consistent.** `remap=True` returns the result of `remap=False` renumbered by ONE map `g` that is
+    injective on all numbers in use — the same `g` for reactants, products and reagents (so atom pairing between the
+    sides, hence the condensed graph, is preserved: part 5) — and the result is again injective per role with reagents
+    apart. For all parsed inputs: any number of gaps, unbalanced roles, duplicates. -/
+theorem mapping_remap_consistent (R P A : List (List Nat)) (o : MapOut)
+    (h : postprocessRxn true true R P A = .ok o) :
+    GoodMaps R P A o ∧ ∃ o₀, postprocessRxn false true R P A = .ok o₀ ∧ ∃ g : Nat → Nat,
+      (∀ a ∈ o₀.reactants.flatten ++ o₀.products.flatten ++ o₀.reagents.flatten,
+        ∀ b ∈ o₀.reactants.flatten ++ o₀.products.flatten ++ o₀.reagents.flatten, g a = g b → a = b) ∧
+      o.reactants.flatten = o₀.reactants.flatten.map g ∧ o.products.flatten = o₀.products.flatten.map g ∧
+      o.reagents.flatten = o₀.reagents.flatten.map g :=
+  postprocess_remap_spec R P A o h
+
+/-- non-trivial instances (evaluated): a repeated number inside a molecule and a reagent re-using a reactant number are
+    repaired with fresh numbers above the maximum; `remap=True` closes the gaps 3, 4 with one map for all roles
+    (unbalanced: the products lack the highest number) -/
+example :
+    (postprocessRxn false true [[1, 1]] [[1, 2]] [[1]]).toOption = some ⟨[[1, 3]], [[1, 2]], [[4]]⟩ ∧
+    (postprocessRxn true true [[1, 2, 9], [5]] [[1, 2, 5]] []).toOption = some ⟨[[1, 2, 4], [3]], [[1, 2, 3]], []⟩ ∧
+    (postprocessRxn false false [[1, 1]] [[1, 2]] []).toOption = none := by
+  decide
 
 end ChythonModel.Props.C15
